@@ -76,8 +76,12 @@ EvalCall(b, kind, mode, st) ==
 (* JSON projections for emitted cases.                                     *)
 (***************************************************************************)
 CtxJson(c) == [kind |-> c.kind, nb |-> c.nb,
-               vars |-> {[n |-> n, v |-> c.vars[n]] : n \in DOMAIN c.vars},
-               funcs |-> {[n |-> n, b |-> c.funcs[n].b, v |-> c.funcs[n].v] : n \in DOMAIN c.funcs}]
+               vars |-> {[n |-> n, v |-> JVal(c.vars[n])] : n \in DOMAIN c.vars},
+               funcs |-> {[n |-> n, b |-> c.funcs[n].b, v |-> JVal(c.funcs[n].v)] : n \in DOMAIN c.funcs}]
+JPat(p) == IF p.p = "val" THEN [p |-> "val", v |-> JVal(p.v)]
+           ELSE IF p.p = "err" THEN [p |-> "err", e |-> JErr(p.e)] ELSE [p |-> p.p]
+JPats(ps) == {JPat(p) : p \in ps}
+JLog(log) == [i \in 1..Len(log) |-> [n |-> log[i].n, a |-> JVal(log[i].a)]]
 \* the inverse, for contexts read from a trace: sequences of [n, v] / [n, b, v] records
 VarsOfSeq(s) == [n \in {s[i].n : i \in 1..Len(s)} |-> s[CHOOSE i \in 1..Len(s) : s[i].n = n].v]
 FuncsOfSeq(s) == [n \in {s[i].n : i \in 1..Len(s)} |-> LET r == s[CHOOSE i \in 1..Len(s) : s[i].n = n] IN Beh(r.b, r.v)]
